@@ -176,7 +176,11 @@ def serialize_schema(dataframe_schema):
         "columns": columns,
         "checks": checks,
         "index": index,
-        "dtype": dataframe_schema.dtype,
+        "dtype": (
+            None
+            if dataframe_schema.dtype is None
+            else str(dataframe_schema.dtype)
+        ),
         "coerce": dataframe_schema.coerce,
         "strict": dataframe_schema.strict,
         "name": dataframe_schema.name,
@@ -469,6 +473,7 @@ Index(
     dtype={dtype},
     checks={checks},
     nullable={nullable},
+    unique={unique},
     coerce={coerce},
     name={name},
     description={description},
@@ -537,14 +542,11 @@ def _format_index(index_statistics):
                 else _format_checks(properties["checks"])
             ),
             nullable=properties["nullable"],
+            unique=properties["unique"],
             coerce=properties["coerce"],
-            name=(
-                "None"
-                if properties["name"] is None
-                else f"\"{properties['name']}\""
-            ),
-            description=(None if description is None else f'"{description}"'),
-            title=(None if title is None else f'"{title}"'),
+            name=repr(properties["name"]),
+            description=repr(description),
+            title=repr(title),
         )
         index.append(index_code.strip())
 
@@ -582,8 +584,8 @@ def to_script(dataframe_schema, path_or_buf=None):
             coerce=properties["coerce"],
             required=properties["required"],
             regex=properties["regex"],
-            description=(None if description is None else f'"{description}"'),
-            title=(None if title is None else f'"{title}"'),
+            description=repr(description),
+            title=repr(title),
         )
         columns[colname] = column_code.strip()
 
@@ -593,23 +595,27 @@ def to_script(dataframe_schema, path_or_buf=None):
         else _format_index(statistics["index"])
     )
 
-    column_str = ", ".join(f"'{k}': {v}" for k, v in columns.items())
+    column_str = ", ".join(f"{k!r}: {v}" for k, v in columns.items())
 
     script = SCRIPT_TEMPLATE.format(
         columns=column_str,
-        checks=statistics["checks"],
+        checks=_format_checks(statistics["checks"]),
         index=index,
-        dtype=dataframe_schema.dtype,
+        dtype=(
+            None
+            if dataframe_schema.dtype is None
+            else _get_dtype_string_alias(dataframe_schema.dtype)
+        ),
         coerce=dataframe_schema.coerce,
-        strict=dataframe_schema.strict,
-        name=dataframe_schema.name.__repr__(),
+        strict=repr(dataframe_schema.strict),
+        name=repr(dataframe_schema.name),
         ordered=dataframe_schema.ordered,
-        unique=dataframe_schema.unique,
-        report_duplicates=f'"{dataframe_schema.report_duplicates}"',
+        unique=repr(dataframe_schema.unique),
+        report_duplicates=repr(dataframe_schema.report_duplicates),
         unique_column_names=dataframe_schema.unique_column_names,
         add_missing_columns=dataframe_schema.add_missing_columns,
-        title=dataframe_schema.title,
-        description=dataframe_schema.description,
+        title=repr(dataframe_schema.title),
+        description=repr(dataframe_schema.description),
     ).strip()
 
     # add pandas imports to handle datetime and timedelta.
